@@ -193,11 +193,10 @@ Lemma sw_star_id l : existsb hit l = false -> sw_star A B l = l.
 Proof. unfold sw_star. intros ->. reflexivity. Qed.
 
 (* ---- statements ---- *)
-Lemma stmt_ext a0 a1 a2 a3 a4 a5 a6 a7 a8 a9 a10 a11 a12 a13 a14 a15 a16 b1 b2 b3 b4 b5 b6 b7 b8 b9 b10 b11 b12 b13 b14 b15 b16 :
-  a1 = b1 -> a2 = b2 -> a3 = b3 -> a4 = b4 -> a5 = b5 -> a6 = b6 -> a7 = b7 -> a8 = b8 -> a9 = b9 -> a10 = b10 ->
-  a11 = b11 -> a12 = b12 -> a13 = b13 -> a14 = b14 -> a15 = b15 -> a16 = b16 ->
-  Build_stmt a0 a1 a2 a3 a4 a5 a6 a7 a8 a9 a10 a11 a12 a13 a14 a15 a16
-  = Build_stmt a0 b1 b2 b3 b4 b5 b6 b7 b8 b9 b10 b11 b12 b13 b14 b15 b16.
+Lemma stmt_ext a0 a1 a2 a3 a4 a5 a6 a7 a8 a9 a10 a11 a12 a13 a14 a15 a16 a17 a18 a19 a20 b1 b2 b3 b4 b5 b6 b7 b8 b9 b10 b11 b12 b13 b14 b15 b16 b17 b18 b19 b20 :
+  a1 = b1 -> a2 = b2 -> a3 = b3 -> a4 = b4 -> a5 = b5 -> a6 = b6 -> a7 = b7 -> a8 = b8 -> a9 = b9 -> a10 = b10 -> a11 = b11 -> a12 = b12 -> a13 = b13 -> a14 = b14 -> a15 = b15 -> a16 = b16 -> a17 = b17 -> a18 = b18 -> a19 = b19 -> a20 = b20 ->
+  Build_stmt a0 a1 a2 a3 a4 a5 a6 a7 a8 a9 a10 a11 a12 a13 a14 a15 a16 a17 a18 a19 a20
+  = Build_stmt a0 b1 b2 b3 b4 b5 b6 b7 b8 b9 b10 b11 b12 b13 b14 b15 b16 b17 b18 b19 b20.
 Proof. intros; subst; reflexivity. Qed.
 
 Lemma rep_withs_ok s :
@@ -254,6 +253,16 @@ Proof.
       apply orb_false_iff in E. destruct E as [E1 E2]. rewrite (occ_subst_id A B t E1), (occ_wt_id w E2). reflexivity.
   - slot S__select_star_tables; [reflexivity | apply sw_star_id].
   - slot S__limit_by; [apply cov_ws_ok | apply occ_ws_id].
+  - slot S__distinct_on; [apply cov_ws_ok | apply occ_ws_id].
+  - slot S__returns; [apply cov_ws_ok | apply occ_ws_id].
+  - slot S__using; [reflexivity | apply map_sw_id].
+  - slot S__duplicate_updates.
+    + apply (map_ext_forallb (fun p => covered (fst p) && cov1 (vis KValue S_value) (cov_wt A (snd p)) (occ_wt A (snd p)))).
+      intros [t w] E. simpl in *. apply andb_true_iff in E. destruct E as [E1 E2].
+      rewrite (covered_rep_subst cf A B t E1).
+      rewrite (ifv_ok _ _ _ (rep_wt A B) (subst_wt A B) w E2 (cov_wt_ok w) (occ_wt_id w)). reflexivity.
+    + apply (map_id_existsb (fun p => occ (fst p) || occ_wt A (snd p))). intros [t w] E. simpl in *.
+      apply orb_false_iff in E. destruct E as [E1 E2]. rewrite (occ_subst_id A B t E1), (occ_wt_id w E2). reflexivity.
 Qed.
 
 End S.
